@@ -28,12 +28,18 @@ func init() {
 				"request-specific adjustment (AD bit, ECS echo) and after hop-by-hop data is removed, and re-applies those " +
 				"adjustments on the hit path.",
 			NotCovered: "the rounding amount of the served TTL, LRU eviction, that the cache library honours the expiry (trusted).",
-			Rules: map[string]string{"C04-R18": "isCacheableNOERROR (both caches): the authority section qualifies a NODATA answer only through an SOA record", "C04-R16": "the main middleware disposes of the original response only when a different one was written (a response that is written, cached and disposed twice aliases pooled records; shared with C07-R3)", "C04-R17": "the initial middleware sets AD unconditionally in the request handed to the pipeline, so cached answers carry the upstream's AD for every requester (table shared with C01-R21)", "C04-R15": "ecscache ServeDNS: the upstream request carries the subnet the cache is keyed by (table shared with C05-R1)", "C04-R14": "TTL stores on records that may come from an additional section are guarded by a not-OPT test (the OPT TTL field is extended rcode / version / DO)", "C04-RC": "class rules (error chains, shadowed results, character classes, crossed arguments, pool constructors, array pools, loop completeness, loop-carried buffers, replacing setters, complete clones, Grow arithmetic, pooled-buffer escape, sorted searches, fresh decode targets, per-iteration objects, whole-message copies, codec guards) over the packages this property rests on", "C04-R13": "setECS leaves exactly one subnet option, in requests and responses alike (table shared with C05-R4)", "C04-R12": "cache wrappers (agdcache, ecscache, dnsserver/cache) use every parameter: key, value and expiration reach the wrapped cache", "C04-R1": "served TTL aged on every path", "C04-R2": "cache key completeness", "C04-R3": "cacheability and store tables",
+			Rules: map[string]string{"C04-R20": "ecscache.itemFromCache returns a miss when the stored item belongs to another host (64-bit key collision; shared with C12-R6)", "C04-R19": "ecscache ServeDNS: between the GeoIP subnet lookup and the cache lookup, the flag that separates the cache key of zero-prefix requests (isECSDeclined) is set from the length of the looked-up subnet: the answer an ECS-aware upstream gives to a /0 (scope 0, generic) is not stored under the key that located clients look up first", "C04-R18": "isCacheableNOERROR (both caches): the authority section qualifies a NODATA answer only through an SOA record", "C04-R16": "the main middleware disposes of the original response only when a different one was written (a response that is written, cached and disposed twice aliases pooled records; shared with C07-R3)", "C04-R17": "the initial middleware sets AD unconditionally in the request handed to the pipeline, so cached answers carry the upstream's AD for every requester (table shared with C01-R21)", "C04-R15": "ecscache ServeDNS: the upstream request carries the subnet the cache is keyed by (table shared with C05-R1)", "C04-R14": "TTL stores on records that may come from an additional section are guarded by a not-OPT test (the OPT TTL field is extended rcode / version / DO)", "C04-RC": "class rules (error chains, shadowed results, character classes, crossed arguments, pool constructors, array pools, loop completeness, loop-carried buffers, replacing setters, complete clones, Grow arithmetic, pooled-buffer escape, sorted searches, fresh decode targets, per-iteration objects, whole-message copies, codec guards) over the packages this property rests on", "C04-R13": "setECS leaves exactly one subnet option, in requests and responses alike (table shared with C05-R4)", "C04-R12": "cache wrappers (agdcache, ecscache, dnsserver/cache) use every parameter: key, value and expiration reach the wrapped cache", "C04-R1": "served TTL aged on every path", "C04-R2": "cache key completeness", "C04-R3": "cacheability and store tables",
 				"C04-R4": "lowest-TTL helper table", "C04-R5": "hit-path coverage and store ordering", "C04-R6": "cached items are private deep copies"},
 		}})
 }
 
 func runC04(c *an.Ctx) {
+	// ---- R20: the collision guard of the ECS cache (shared with C12-R6)
+	c.Floor("C04-R20", 1)
+	c.Borrow("C04-R20", runC12, func(o an.Obligation) bool { return o.Rule == "C12-R6" && strings.Contains(o.Key, "ecscache.") })
+	// ---- R19: a request forwarded with a zero-length subnet because its location has none is keyed apart
+	c.Floor("C04-R19", 1)
+	c04ZeroSubnetKeyedApart(c, "C04-R19")
 	classSweep(c, "C04")
 	// ---- R18: NODATA answers are cacheable only with the zone's SOA record
 	c.Floor("C04-R18", 2)
@@ -808,4 +814,72 @@ func c04NodataNeedsSOA(c *an.Ctx, rule string) {
 			"the only record type looked for in the authority section is SOA",
 			"the record types looked for are ["+strings.Join(asserted, ", ")+"]: an answer with NS records only (a referral, an unfollowed CNAME chain) is stored and served in place of the real answer")
 	}
+}
+
+// c04ZeroSubnetKeyedApart: SubnetByLocation gives the zero prefix for a location
+// without data.  The request then goes upstream with a /0 client subnet, which
+// an ECS-aware upstream must answer with scope 0 and its generic answer; that
+// answer goes to the cache for names without ECS support.  Its key differs from
+// the key of located clients only in the isECSDeclined byte, so the flag has
+// to be set for such a request too: after the SubnetByLocation call and before
+// the cache lookup there is a store into cacheRequest.isECSDeclined whose value
+// depends on Bits() of the looked-up subnet.
+func c04ZeroSubnetKeyedApart(c *an.Ctx, rule string) {
+	k := "ecscache.(*mwHandler).ServeDNS"
+	fn := c.Prog.Fn(k)
+	key := k + ": a location without a subnet is keyed like an opt-out"
+	if fn == nil {
+		c.Und(rule, key, token.NoPos, "anchor not found")
+		return
+	}
+	c.Analysed(k)
+	var geo, get ssa.CallInstruction
+	for _, call := range an.Calls(fn) {
+		switch n := an.CalleeName(call); {
+		case call.Common().IsInvoke() && call.Common().Method.Name() == "SubnetByLocation":
+			geo = call
+		case strings.HasSuffix(n, "ecscache.Middleware).get"):
+			get = call
+		}
+	}
+	if geo == nil || get == nil {
+		c.Und(rule, key, fn.Pos(), "SubnetByLocation call or cache lookup not found")
+		return
+	}
+	found := ""
+	an.Instrs(fn, func(in ssa.Instruction) {
+		st, ok := in.(*ssa.Store)
+		if !ok {
+			return
+		}
+		typ, field, _, ok := an.FieldOf(st.Addr)
+		if !ok || !strings.HasSuffix(typ, "ecscache.cacheRequest") || field != "isECSDeclined" {
+			return
+		}
+		if !an.CanReach(geo, st) || !an.CanReach(st, get) {
+			return
+		}
+		// the stored value (or a condition that dominates the store) depends on Bits() of the looked-up subnet
+		dep := false
+		w := &an.Walker{P: c.Prog, NoFieldJoin: true,
+			Visit: func(v ssa.Value) bool {
+				if call, ok := v.(*ssa.Call); ok && an.CalleeName(call) == "(net/netip.Prefix).Bits" {
+					dep = true
+					return true
+				}
+				return false
+			},
+			Leaf: func(ssa.Value, string) {},
+		}
+		w.Walk(st.Val)
+		for _, e := range an.DominatingConds(st.Block()) {
+			w.Walk(e.If.Cond)
+		}
+		if dep {
+			found = c.Pos(st.Pos())
+		}
+	})
+	c.Check(found != "", rule, key, geo.Pos(),
+		"isECSDeclined is set from the length of the looked-up subnet at "+found,
+		"no store into cacheRequest.isECSDeclined that depends on Bits() of the subnet lies between the SubnetByLocation call and the cache lookup: a client whose location has no subnet is forwarded with a /0, the upstream's generic scope-0 answer is stored under the key of located clients, and they get it instead of the answer for their subnet")
 }
